@@ -101,8 +101,8 @@ def c03_case(draw):
         forms = ['list', 'array', 'array'] + (['column'] if base['prog']['container'] != 'mat' else [])
         xform = draw(st.sampled_from(forms))
     else:
-        xform = draw(st.sampled_from(['list', 'array', 'grid']))
-        if xform == 'grid':
+        xform = draw(st.sampled_from(['list', 'array', 'grid', 'gridF']))
+        if xform in ('grid', 'gridF'):
             grid = list(draw(st.sampled_from(GRIDS)))
             base = draw(mv.mv_cases(n=grid[0] * grid[1], containers=('0d',), kinds=KINDS))
         else:
@@ -170,6 +170,8 @@ def shape_x(case, x):
         return np.array(x, dtype=float)
     if xf == 'column':
         return np.array(x, dtype=float).reshape(-1, 1)
+    if xf == 'gridF':        # same logical 2-d array, Fortran memory order
+        return np.asfortranarray(np.array(x, dtype=float).reshape(case['grid']))
     return np.array(x, dtype=float).reshape(case['grid'])
 
 
@@ -180,7 +182,7 @@ class C03(Prop):
             'A x + b with dense asymmetric A, quadratic, or ridge programs sum c*g(a.x + b0) (products of two '
             'ridge factors, optional affine/quadratic parts; g an expression tree over the C01 operation '
             'set), an output container (0-d, length-1, length-m, (m, k) with k 1..4 and mixed columns), '
-            'x_l = +-10^U(-3, 2) passed as list / 1-d array / column vector (Jacobian) / n1 x n2 array '
+            'x_l = +-10^U(-3, 2) passed as list / 1-d array / column vector (Jacobian) / n1 x n2 array in C or Fortran memory order '
             '(Gradient, directionaldiff), method (all five), order in {2, 4}, a step configuration (default, '
             'Min/MaxStepGenerator options, scalar) scaled so that stencil-width * h_max * ||a||_1 <= rho_cert/2 '
             'for every ridge factor, and for directionaldiff a non-zero v (non-unit, mixed signs, zeros).  '
@@ -487,7 +489,7 @@ class C03(Prop):
     def _directional(self, ctx, nd, case, an, x_in, w):
         prog, method, order = case['prog'], case['method'], case['order']
         n = an.n
-        grid = case['grid'] if case['xform'] == 'grid' else None
+        grid = case['grid'] if case['xform'] in ('grid', 'gridF') else None
         f_dir = mv.MVFunction(prog, grid=grid)
         f_flat = mv.MVFunction(prog)
         x_arr = np.asarray(x_in, dtype=float)
